@@ -1447,7 +1447,12 @@ func main() {
 	workers := flag.Int("workers", 6, "")
 	probe := flag.String("faultprobe", "", "docs|meta: print what a failed write leaves behind")
 	probeCut := flag.Int("cut", 10, "")
+	mprobe := flag.Bool("mprobe", false, "print the file operations of a rotation, a seal and a start-up over several fractions")
 	flag.Parse()
+	if *mprobe {
+		multiProbe()
+		return
+	}
 	if *probe != "" {
 		faultProbe(*probe, *probeCut)
 		return
